@@ -75,7 +75,7 @@ def run(sdir, checks):
     rc, o = sh(["git", "-C", "/repo", "status", "--porcelain"])
     if o.strip():
         print("refusing: /repo is not clean"); return 2
-    rc, o = sh(["git", "-C", "/repo", "apply", os.path.join(sdir, "patch.diff")])
+    rc, o = sh(["git", "-C", "/repo", "apply", os.path.abspath(os.path.join(sdir, "patch.diff"))])
     if rc != 0:
         print("patch does not apply to /repo:", o[-300:]); return 2
     results = meta.setdefault("checks", {})
